@@ -17,7 +17,7 @@ func init() { All["C03"] = Spec{"exploration", runC03} }
 func runC03(c *vlib.Check) {
 	c.Rule = "generic TTLV trees: every leaf of the scalar alphabets (10 types; integer extremes; big integers around byte and 8-byte " +
 		"boundaries, both signs; string lengths covering every length mod 8) under 5 tags; each leaf at first/middle/last position " +
-		"and nested to depth 3; all ordered pairs (thorough: triples) of 15 representative items. distinct = distinct reference encodings"
+		"and nested to depth 3; every tree with an empty structure or byte string also with that value held as a nil slice; all ordered pairs (thorough: triples) of 15 representative items. distinct = distinct reference encodings"
 	c.Assumptions = []string{"refttlv (independent parser/generator written from KMIP 1.4 §9.1) is the judge of well-formedness",
 		"intervals restricted to [0,2^32) s and dates to whole seconds, as the property states"}
 	var trees []*enum.N
@@ -57,6 +57,20 @@ func c03One(c *vlib.Check, t *enum.N, idx int) {
 	if !bytes.Equal(out, ref) {
 		c.Violation("bytes-differ:"+tname, fmt.Sprintf("library bytes differ from canonical encoding for %s", t), rep)
 		return
+	}
+	// the same values held as Go zero values: an empty structure as a nil ttlv.Struct, an empty byte string as a nil slice
+	if conv.HasEmpty(t) {
+		var nout []byte
+		if pv, site := vlib.Catch(func() { nout = ttlv.MarshalTTLV(conv.ToValueNil(t)) }); pv != nil {
+			c.Violation("encode-panic:nil-empty:"+site, fmt.Sprintf("MarshalTTLV panicked: %v on %s with its empty values held as nil slices", pv, t), rep)
+			return
+		}
+		c.Eval(append([]byte("nil:"), ref...), true)
+		if !bytes.Equal(nout, ref) {
+			rep["nil_hex"] = hex.EncodeToString(nout)
+			c.Violation("bytes-differ:nil-empty:"+tname, fmt.Sprintf("%s with its empty structures / byte strings held as nil slices is encoded differently (the item is present, of length 0)", t), rep)
+			return
+		}
 	}
 	// the same through a reused encoder: a previous, longer message full of non-zero bytes, Clear(), then this tree
 	var reused []byte
